@@ -203,6 +203,22 @@ func (g *G) wrapTx(msgs []sdk.Msg, note string, aminoOK bool) *world.TxStep {
 	exec := 0
 	if g.chance("exec", g.bias("exec", 8)) {
 		exec = 1 + g.acct("grantee")
+		// aim at a grantee that holds a matching grant most of the time
+		if rs := world.RequiredSigners(msgs[0]); len(rs) > 0 && g.chance("aim-grant", 70) {
+			prefix := canonStr(rs[len(rs)-1]) + "|"
+			suffix := "|" + sdk.MsgTypeURL(msgs[0])
+			var cands []int
+			for _, k := range sortedKeys(g.W.Authz) {
+				if strings.HasPrefix(k, prefix) && strings.HasSuffix(k, suffix) {
+					if i := g.W.AcctIndex(k[len(prefix) : len(k)-len(suffix)]); i >= 0 {
+						cands = append(cands, i)
+					}
+				}
+			}
+			if len(cands) > 0 {
+				exec = 1 + pick(g, "granted", cands)
+			}
+		}
 	}
 	signers, how := g.signersFor(msgs, exec, g.bias("right-signers", 80), aminoOK && exec == 0)
 	ts := &world.TxStep{Signers: signers, Fee: g.fee("fee"), Exec: exec, Note: note + " signers=" + how, Proofs: g.proofs}
